@@ -7,15 +7,20 @@
 (* count.  Hidden state (all `mutable` in the class) that must never show  *)
 (* through:                                                                *)
 (*   dcReady / dcVer / dcNc  - lazy cache of differentiated coefficients,  *)
-(*                             built on first evaluation from the data of  *)
-(*                             version dcVer with dcNc coefficients;       *)
+(*                             built on first evaluation from the data     *)
+(*                             dcVer (the data themselves are the tag: two *)
+(*                             objects may hold different data under the   *)
+(*                             same initialisation count) with dcNc        *)
+(*                             coefficients;                               *)
 (*   ftReady / ftNc          - lazily built falling-factorial table, only  *)
 (*                             needed when the coefficient count exceeds   *)
 (*                             the static table (StaticLimit = 8 in the    *)
 (*                             code) or the order is dynamic.              *)
-(* Every (re)initialisation must invalidate both.  `ver` counts            *)
-(* initialisations; a read of a cache built from another version, or a     *)
-(* table built for another coefficient count, latches `stale`.             *)
+(* Every (re)initialisation must invalidate both, and a copy or an         *)
+(* assignment must leave the destination with caches that belong to the    *)
+(* data it now holds (the source's, or none).  `ver` counts                *)
+(* initialisations; a read of a cache built from other data, or a table    *)
+(* built for another coefficient count, latches `stale`.                   *)
 (* `data` is opaque: model values in MCPPolyObj, real records in           *)
 (* TracePPoly.                                                             *)
 (***************************************************************************)
@@ -28,7 +33,7 @@ PInit == pobjs = << >>
 PLive == DOMAIN pobjs
 
 Fresh == [init |-> FALSE, data |-> <<>>, nc |-> 0, nseg |-> 0, fixed |-> 0, ver |-> 0,
-          dcReady |-> FALSE, dcVer |-> 0, dcNc |-> 0, ftReady |-> FALSE, ftNc |-> 0, stale |-> FALSE]
+          dcReady |-> FALSE, dcVer |-> <<>>, dcNc |-> 0, ftReady |-> FALSE, ftNc |-> 0, stale |-> FALSE]
 
 \* accepted iff >= 2 breakpoints, rows = segments * nc, and (fixed order: 0 < nc <= order)
 Accepts(fixed, nbp, rows, nc) ==
@@ -57,11 +62,11 @@ NeedsTable(o) == ~(o.fixed > 0 /\ o.fixed <= StaticLimit) /\ o.nc > StaticLimit
 AfterEval(o, k) ==
     IF k >= o.nc \/ k < 0 \/ o.nseg = 0 THEN o
     ELSE LET built == IF o.dcReady THEN o
-                      ELSE [o EXCEPT !.dcReady = TRUE, !.dcVer = o.ver, !.dcNc = o.nc,
+                      ELSE [o EXCEPT !.dcReady = TRUE, !.dcVer = o.data, !.dcNc = o.nc,
                                      !.ftReady = IF NeedsTable(o) THEN TRUE ELSE @,
                                      !.ftNc = IF NeedsTable(o) /\ ~o.ftReady THEN o.nc ELSE @,
                                      !.stale = @ \/ (NeedsTable(o) /\ o.ftReady /\ o.ftNc # o.nc)]
-         IN [built EXCEPT !.stale = @ \/ built.dcVer # built.ver \/ built.dcNc # built.nc]
+         IN [built EXCEPT !.stale = @ \/ built.dcVer # built.data \/ built.dcNc # built.nc]
 PEval(id, k) == id \in PLive /\ Put(id, AfterEval(pobjs[id], k))
 
 \* derivative(k): reads the coefficients and the factor table, builds a NEW object
@@ -86,7 +91,7 @@ PReset == pobjs' = << >>
 
 (* ------------------------------ invariants ---------------------------- *)
 CacheCoherent == \A i \in PLive : LET o == pobjs[i] IN
-                    /\ (o.dcReady => o.dcVer = o.ver /\ o.dcNc = o.nc)
+                    /\ (o.dcReady => o.dcVer = o.data /\ o.dcNc = o.nc)
                     /\ (o.ftReady => o.ftNc = o.nc)
 NeverStale == \A i \in PLive : ~pobjs[i].stale
 RejectedIsEmpty == \A i \in PLive : ~pobjs[i].init => pobjs[i].nseg = 0 /\ pobjs[i].nc = 0 /\ pobjs[i].data = <<>>
